@@ -30,17 +30,17 @@ package main
 // whose acceptance could be observed: Object.registerEventWithSignature(IILs)
 // answers every call with an error.)
 //
-// Cut positions (see longPlan): the thorough tier cuts every encoding with up
-// to 70000 content bytes at EVERY strict prefix 0 <= k < len(e); the quick
-// tier does so for the ReadString and m<s> encodings and cuts the others at
-// the stated set {every k < c+16, every k >= len(e)-16, c + 256*j + {-1,0,1}
-// for every j}, c being the offset of the first content byte; 131073 and
-// 1048577 content bytes are cut at the stated set with 4096*j. Each prefix is
-// delivered in the three ways of the other families (fragmenting reader
-// data+EOF, fragmenting reader EOF separate, *bytes.Buffer). Oracle: a strict
-// prefix is refused with an error (no panic, no hang); the full encoding is
-// accepted, consumed exactly (a sentinel follows it), and decodes to the
-// original.
+// Cut positions (see longPlan): EVERY strict prefix 0 <= k < len(e) for the
+// ReadString encodings (thorough: also sigreader s, reflect-decode s, newvalue
+// m<s> and m<r>, i.e. every path that reads a long leaf, taken alone) with up
+// to 70000 content bytes; the other encodings at the stated set {every
+// k < c+16, every k >= len(e)-16, c + 256*j + {-1,0,1} for every j}, c being
+// the offset of the first content byte; 131073 and 1048577 content bytes at
+// the stated set with 4096*j. Each prefix is delivered in the three ways of
+// the other families (fragmenting reader data+EOF, fragmenting reader EOF
+// separate, *bytes.Buffer). Oracle: a strict prefix is refused with an error
+// (no panic, no hang); the full encoding is accepted, consumed exactly (a
+// sentinel follows it), and decodes to the original.
 //
 // A truncation that is not refused is attributed by experiment: the smallest
 // content length m for which the same prefix length is still accepted is
@@ -258,19 +258,25 @@ func longCuts(n, c, stride int, every bool) []int {
 }
 
 // longPlan says how an encoding is cut. Content lengths above longEvery
-// (thorough tier) are cut at the stated set with a stride of 4096 in both
-// tiers. Up to longEvery: the thorough tier cuts every encoding at every
-// position; the quick tier cuts at every position the encodings of the
-// primitive every other entry point reads its strings with (decoder
-// ReadString) and of the dynamic string value, and the others at the stated
-// set with a stride of 256 (a decode of a prefix of a 70000-byte string costs
-// a 70000-byte allocation: every position of every entry point is 9.4
-// million such decodes).
+// (thorough tier) are cut at the stated set with a stride of 4096. Up to
+// longEvery an encoding is cut at every position
+//
+//	quick     for the decoder ReadString (the primitive every other entry
+//	          point reads its strings with)
+//	thorough  for the five entry points that read a long leaf and nothing
+//	          else, one per distinct reading path: ReadString, sigreader s,
+//	          reflect-decode s, newvalue m<s>, newvalue m<r>
+//
+// and at the stated set with a stride of 256 otherwise (a decode of a prefix
+// of a 70000-byte string costs a 70000-byte allocation; every position of
+// every entry point and length would be 11 million such decodes, two minutes
+// on a loaded machine).
 func longPlan(e longEntry, content int, thorough bool) (every bool, stride int) {
 	if content > longEvery {
 		return false, 4096
 	}
-	if thorough || e.decoder == "ReadString" || (e.decoder == "newvalue" && e.shape == "m<s>") {
+	alone := e.shape == "s" || e.shape == "m<s>" || e.shape == "m<r>"
+	if e.decoder == "ReadString" || (thorough && alone) {
 		return true, 0
 	}
 	return false, 256
